@@ -176,7 +176,12 @@ DOC_CHAINS = [
     ["OPT", "TYPE[NUMBER]", "RANGE[1,10]"], ["REQ", "TYPE[BOOLEAN]"], ["OPT", "TYPE[LIST]", "MAX_LENGTH[2]"], ["REQ", "CONST[X]"],
     ["OPT", 'REGEX["^[a-z]+$"]'], ["REQ", 'REGEX["^[0-9]{3}$"]'], ["OPT", "MIN_LENGTH[2]"], ["REQ", "TYPE[LIST]", "MIN_LENGTH[1]"],
     ["OPT", "DATE"], ["REQ", "ISO8601"], ["TYPE[STRING]"], ["ENUM[ACTIVE,ACTIVATING,DRAFT]"],
+    # patterns with a backslash, in both source spellings of a quoted string: the backslash doubled (an escaped backslash) and
+    # single (an unknown escape, kept as it is) - either way the pattern is ^user_\d+$ / ^v[0-9]+\.[0-9]+$
+    ["REQ", 'REGEX["^user_\\\\d+$"]'], ["OPT", 'REGEX["^user_\\d+$"]'], ["OPT", 'REGEX["^v[0-9]+\\\\.[0-9]+$"]'], ["REQ", 'REGEX["^v[0-9]+\\.[0-9]+$"]'],
 ]
+# what a schema document's member text denotes (the reference evaluator works on the denoted member)
+DOC_MEMBER_DENOTES = {'REGEX["^user_\\\\d+$"]': 'REGEX["^user_\\d+$"]', 'REGEX["^v[0-9]+\\\\.[0-9]+$"]': 'REGEX["^v[0-9]+\\.[0-9]+$"]'}
 # instance values as OCTAVE source text with the Python value the reader must produce
 INSTANCE_VALUES = [
     ('"abc"', "abc"), ("abc", "abc"), ('"ABC"', "ABC"), ("DRAFT", "DRAFT"), ("ACTIVE", "ACTIVE"), ("ACT", "ACT"), ("ACTIV", "ACTIV"), ("D", "D"),
@@ -184,6 +189,7 @@ INSTANCE_VALUES = [
     ("false", False), ("[]", []), ("[a]", ["a"]), ("[a,b]", ["a", "b"]), ("[a,b,c]", ["a", "b", "c"]), ('"123"', "123"), ('"12"', "12"),
     ('"2024-01-15"', "2024-01-15"), ('"2023-02-29"', "2023-02-29"), ('"2024-01-15T10:30:00Z"', "2024-01-15T10:30:00Z"),
     ('"2024-01-15T25:00:00"', "2024-01-15T25:00:00"), ('"a"', "a"), ('""', ""), ("null", None),
+    ("user_12", "user_12"), ('"user_"', "user_"), ('"user_x"', "user_x"), ('"v1.2"', "v1.2"), ('"v1x2"', "v1x2"), ('"v10.25"', "v10.25"),
     # text with blanks at its ends: the value in the document is the padded text, and that is what is judged
     ('" abc"', " abc"), ('"abc  "', "abc  "), ('"ACTIVE "', "ACTIVE "), ('" X"', " X"), ('"   "', "   "), ('" 5"', " 5"), ('"a "', "a "), ('"2024-01-15 "', "2024-01-15 "),
 ]
@@ -220,7 +226,7 @@ def expected_doc(policy, fields, assigns):
             return "missing" if "REQ" in chain else "ok"
         if R.declared_conflict(chain):
             return "bad"
-        verdicts = [R.ref_member(m, v) for m in chain]
+        verdicts = [R.ref_member(DOC_MEMBER_DENOTES.get(m, m), v) for m in chain]
         if any(x is False for x in verdicts):
             return "bad"
         return None if any(x is None for x in verdicts) else "ok"
